@@ -3,7 +3,7 @@
    LZ4_compress_fast_extState_fastReset on any context satisfying [ctx_ok]
    (an invariant established by initStream and preserved by every call). *)
 From Coq Require Import ZArith List Lia Bool ZifyBool FMapPositive.
-From LZ4V Require Import Gen.Consts Spec.BlockSpec Model.Mem Model.Fast Model.FastApi
+From LZ4V Require Import Gen.Consts Spec.BlockSpec Proofs.BlockSpecProofs Model.Mem Model.Fast Model.FastApi
      Proofs.FactorSpec Proofs.FastBasics Proofs.FastSound.
 Import ListNotations.
 Local Open Scope Z_scope.
@@ -18,6 +18,12 @@ Proof.
   { induction k as [|k IH]; intros a; cbn [bytes load_list]; [reflexivity|].
     f_equal; [f_equal; lia|]. replace (start + a + 1) with (start + (a + 1)) by lia. apply IH. }
   replace start with (start + 0) at 1 by lia. apply G.
+Qed.
+
+Lemma strict_valid_spec hist blk d : strict_valid hist blk = Some d -> spec_decode hist blk = Some d.
+Proof.
+  unfold strict_valid, spec_decode. destruct (parse_block blk) as [[ss last]|]; [|discriminate].
+  destruct (end_ok ss last); [auto | discriminate].
 Qed.
 
 Lemma get_empty h : get empty h = 0.
@@ -57,7 +63,7 @@ Lemma compress_generic_nodict_sound c src srcSize cap od t small accel :
   (* a positive result decodes to the input *)
   (0 < a_ret a ->
    a_ret a = Z.of_nat (length (a_out a)) /\
-   spec_decode [] (a_out a) = Some (load_list src 0 (Z.to_nat srcSize)) /\
+   strict_valid [] (a_out a) = Some (load_list src 0 (Z.to_nat srcSize)) /\
    (srcSize <> 0 -> a_consumed a = srcSize)).
 Proof.
   intros Hsrc Hod Hacc Hds Hcur Htab Hu16. unfold compress_generic_nodict.
@@ -86,13 +92,17 @@ Proof.
     as [tab|ss last consumed tab hw] eqn:E; cbn [a_ret a_out a_consumed a_ctx f_cur f_dictSize f_tab]; cbn [RPost] in F.
   - split; [intros; lia|]. split; [|lia]. intros _. split; [reflexivity|]. split; [reflexivity|].
     intros h. rewrite HB in F. destruct (F h) as [? _]. lia.
-  - destruct F as (Ft & F1 & F2 & F3 & F4).
+  - destruct F as (Ft & Fe & F1 & F2 & F3 & F4).
     split; [intros; lia|]. split.
     + intros _. split; [reflexivity|]. split; [reflexivity|].
       intros h. rewrite HB in Ft. destruct (Ft h) as [? _]. lia.
     + intros _. split; [reflexivity|]. split; [|intros _; exact F1].
-      pose proof (factor_block_decodes vrd (hist_lo CNoDict (f_cur c) (f_dictSize c)) (f_cur c) (f_cur c + srcSize) ss last
-                    (fun a => Hsrc (a - f_cur c)) ltac:(unfold hist_lo; lia) F2 F3 F4) as R2.
+      assert (R2 : strict_valid (seg vrd (hist_lo CNoDict (f_cur c) (f_dictSize c)) (f_cur c)) (encode_block ss last)
+                   = Some (seg vrd (f_cur c) (f_cur c + srcSize))).
+      { rewrite strict_valid_encode.
+        - rewrite Fe. apply (factor_decodes vrd (hist_lo CNoDict (f_cur c) (f_dictSize c)) (f_cur c) (f_cur c + srcSize) ss last ltac:(unfold hist_lo; lia) F2 F3 F4).
+        - eapply seqs_valid_wf; [|exact F2]. intros x. apply Hsrc.
+        - subst last. apply seg_bytes_ok. intros x. apply Hsrc. }
       unfold hist_lo in R2. rewrite (seg_nil vrd (f_cur c) (f_cur c)) in R2 by lia.
       unfold vrd in R2. rewrite seg_load in R2 by lia. exact R2.
 Qed.
@@ -109,7 +119,7 @@ Theorem compress_fast_extState_roundtrip src srcSize cap accel :
   let a := compress_fast_extState src srcSize cap accel in
   0 < a_ret a ->
   a_ret a = Z.of_nat (length (a_out a)) /\
-  spec_decode [] (a_out a) = Some (load_list src 0 (Z.to_nat srcSize)).
+  strict_valid [] (a_out a) = Some (load_list src 0 (Z.to_nat srcSize)).
 Proof.
   intros Hsrc. unfold compress_fast_extState. cbv zeta.
   pose proof (clamp_accel_ge accel) as Hacc.
@@ -182,7 +192,7 @@ Theorem compress_fast_extState_fastReset_sound c src srcSize cap accel :
   ctx_ok (a_ctx a) /\
   (0 < a_ret a ->
    a_ret a = Z.of_nat (length (a_out a)) /\
-   spec_decode [] (a_out a) = Some (load_list src 0 (Z.to_nat srcSize))).
+   strict_valid [] (a_out a) = Some (load_list src 0 (Z.to_nat srcSize))).
 Proof.
   intros Hsrc Hc. unfold compress_fast_extState_fastReset. cbv zeta.
   pose proof (clamp_accel_ge accel) as Hacc.
@@ -226,7 +236,7 @@ Theorem fastReset_history_sound : forall calls c,
   Forall (fun ka => let '(k, a) := ka in
             0 < a_ret a ->
             a_ret a = Z.of_nat (length (a_out a)) /\
-            spec_decode [] (a_out a) = Some (load_list (k_src k) 0 (Z.to_nat (k_size k))))
+            strict_valid [] (a_out a) = Some (load_list (k_src k) 0 (Z.to_nat (k_size k))))
          (run_history c calls).
 Proof.
   induction calls as [|k r IH]; intros c Hc Hs; cbn [run_history]; [constructor|].
